@@ -100,6 +100,20 @@ def gen_cases(tier, seed):
         for base in ('A%sB', '1%s5', '%s', 'HELLO%sWORLD', '12%s'):
             cases.append(common.mk(base % ch, tag='almost'))
             cases.append(common.mk(base % ch, tag='almost', mode=rng.choice(['alphanumeric', 'numeric'])))
+    # sequences of double-byte characters at the edges of the two Shift JIS ranges (8140-9FFC, E040-EBBF): whether the
+    # *whole* content is kanji is decided character by character - a later character outside the ranges makes it byte
+    leads = [0xEB, 0xEA, 0xE0, 0x9F, 0x81, 0xEC, 0x80]
+    trails = [0x40, 0x7E, 0x7F, 0x80, 0xBF, 0xC0, 0xFC, 0xFD, 0x3F]
+    pool = [bytes((a, b)) for a in leads for b in trails]
+    for x in pool:
+        for y in pool:
+            if rng.random() < (0.35 if tier == 'quick' else 1.0) or (x[0] == 0xEB and y[0] == 0xEB):
+                cases.append(common.mk(x + y, tag='two-byte-pairs'))
+    for _ in range(300 if tier == 'quick' else 6000):
+        k = rng.randint(3, 6)
+        content = b''.join(rng.choice(pool) if rng.random() < 0.5 else bytes((0xEB, rng.choice([0x40, 0x50, 0xBF, 0xC0, 0xD0, 0xFC])))
+                           for _ in range(k))
+        cases.append(common.mk(content, tag='two-byte-pairs', **({'mode': 'kanji'} if rng.random() < 0.2 else {})))
     # the mode of the symbols of a sequence: content of one class, every chunk of it is of that class too, so every
     # symbol carries the mode indicator of the first applicable mode - also when the content is longer than one symbol
     # could ever hold (kanji: 1817 characters)
